@@ -351,3 +351,57 @@ def _loop_stats(run, stats):
     stats['stalls_injected'] = stats.get('stalls_injected', 0) + ls['stalls']
     stats['loop_iterations'] = stats.get('loop_iterations', 0) + \
         ls['iterations']
+
+
+# ---------------------------------------------------------------- engine API
+
+def digest(res):
+    from .digest import run_digest
+    return run_digest(res.run) if res.run is not None else None
+
+
+def events(res):
+    run = res.run
+    if run is None:
+        return []
+    return [[s, t, k, n, p if isinstance(p, (str, type(None)))
+             else type(p).__name__] for s, t, k, n, p in run.events]
+
+
+def sample(seed, idx, case, res):
+    from .driver import compact
+    run = res.run
+    base = run.knobs['base']
+    return {
+        "seed": seed, "case_index": idx, "spec": compact(case['spec']),
+        "knobs": case['knobs'], "aux": case['aux'],
+        "outcome": [run.outcome, repr(run.value)[:80]],
+        "history": ["%d t=%g %s %s %s" % (s, t - base, k, n,
+                                           p if isinstance(p, str) else '')
+                    for s, t, k, n, p in run.events[:40]],
+        "violations": [v.as_dict() for v in res.violations][:3],
+    }
+
+
+def candidates(case):
+    from .shrink import candidates as cands
+    return cands(case)
+
+
+def valid(prop, case):
+    from .shrink import valid as ok
+    return ok(prop, case)
+
+
+def pin(case, res):
+    """replay the recorded schedule choices from now on"""
+    if case.get('choices') is None and res.run is not None:
+        pinned = dict(case)
+        pinned['choices'] = list(res.run.choices)
+        return pinned
+    return None
+
+
+def case_size(case):
+    import json
+    return len(json.dumps(case['spec']))
